@@ -101,7 +101,15 @@ class Run:
         sv['board::piece::king::ATTACKS'] = tuple(bb(x) for x in t['king_attacks'])
         sv['board::piece::pawn::ATTACKS'] = tuple(tuple(bb(x) for x in row) for row in t['pawn_attacks'])
         sv['board::square::rays::RAYS'] = (tuple(tuple(bb(x) for x in row) for row in t['rays']),)
-        sv['search::move_orderer::MVV_LVA_TABLE'] = tuple(tuple(CI(x, 64) for x in row) for row in t['mvv_lva'])
+        mw = 64
+        it_ = self.prog.items.get('search::move_orderer::MVV_LVA_TABLE') if self.prog is not None else None
+        if it_ is not None:
+            import re as _re
+            mm = _re.search(r'\[\[(u8|u16|u32|u64|usize|i8|i16|i32|i64|isize); \d+\]; \d+\]', str(it_.ret))
+            if mm:
+                from .executor import INT_TYPES
+                mw = INT_TYPES[mm.group(1)][0]
+        sv['search::move_orderer::MVV_LVA_TABLE'] = tuple(tuple(CI(x & ((1 << mw) - 1), mw) for x in row) for row in t['mvv_lva'])
         if zobrist == 'concrete':
             zp = t['z_pieces']
             pieces = tuple(tuple(tuple(CI(zp[c * 384 + k * 64 + s], 64) for s in range(64)) for k in range(6)) for c in range(2))
